@@ -51,7 +51,7 @@ Record state := {
   cmap : list (N * N);       (* number -> channel object, as published in a.channelBindings *)
   parmed : list (N * N);     (* permission objects whose lifetimeTimer is non-nil, with their peer *)
   carmed : list (N * N);
-  pstopped : list N; cstopped : list N;
+  pstopped : list N; cstopped : list N;   (* timers that will not fire: stopped, or expired already *)
   chlock : bool;             (* channelBindingsLock is held for writing *)
   closed : bool; crashed : bool;
   evs : list ev;             (* most recent first *)
@@ -91,6 +91,10 @@ Definition remove_chan (a : N) (s : state) : state :=
   | None => s
   end.
 
+(* timer.Reset on a live, stopped or expired timer re-arms it *)
+Definition revive_p (p : N) (s : state) : state := set_pstopped s (filter (fun x => negb (x =? p)) (pstopped s)).
+Definition revive_c (c : N) (s : state) : state := set_cstopped s (filter (fun x => negb (x =? c)) (cstopped s)).
+
 Section Steps.
   Variable ordp ordc : list step.
 
@@ -125,7 +129,7 @@ Section Steps.
     | CAddPerm =>
         match lookup a (pmap s) with
         | Some p => (* existedPermission.refresh *)
-            if has_id p (parmed s) then (s, finish a pprog' cprog' pp cp l) else (crash s, TDone)
+            if has_id p (parmed s) then (revive_p p s, finish a pprog' cprog' pp cp l) else (crash s, TDone)
         | None => (bump s, finish a ordp cprog' (nextid s) cp (newperm l))
         end
     end.
@@ -141,13 +145,13 @@ Section Steps.
     | TDone => (s, TDone)
     | TAddPerm a =>
         match lookup a (pmap s) with
-        | Some p => (touch_timer p (parmed s) s, TDone)
+        | Some p => (if has_id p (parmed s) then revive_p p s else crash s, TDone)
         | None => (bump s, finish a ordp [] (nextid s) 0 ls0)
         end
     | TAddChan a =>
         if chlock s then (s, t)                     (* GetChannelByNumber needs the read lock *)
         else match lookup a (cmap s) with
-             | Some c => if has_id c (carmed s) then (s, TAddPerm a) else (crash s, TDone)
+             | Some c => if has_id c (carmed s) then (revive_c c s, TAddPerm a) else (crash s, TDone)
              | None => (bump s, finish a [] ordc 0 (nextid s) ls0)
              end
     | TRun a pprog cprog pp cp l => run_step s a pprog cprog pp cp l
@@ -184,17 +188,21 @@ Section Steps.
                end
     | FireP p => (* the permission's timer callback: p.allocation.RemovePermission(p.Addr) *)
         match lookup p (parmed s) with
-        | Some a => if memN p (pstopped s) then w else (remove_perm a s, th)
+        | Some a => if memN p (pstopped s) then w else (set_pstopped (remove_perm a s) (p :: pstopped s), th)
         | None => w
         end
     | FireC c => match lookup c (carmed s) with
-                 | Some a => if memN c (cstopped s) || chlock s then w else (remove_chan a s, th)
+                 | Some a => if memN c (cstopped s) || chlock s then w else (set_cstopped (remove_chan a s) (c :: cstopped s), th)
                  | None => w
                  end
     end.
 
   Definition wrun (sched : list op) (w : world) : world := fold_left wstep sched w.
 End Steps.
+
+(* threads as the harness and the server start them *)
+Definition initial (t : thread) : bool :=
+  match t with TDone | TAddPerm _ | TAddChan _ | TClose0 => true | _ => false end.
 
 (* ---------- the condition on the two orders under which no interleaving can crash ---------- *)
 (* whenever the lock is not held, what this call has published has its timer armed *)
